@@ -176,8 +176,42 @@ def recover_sites(repo):
     return len(re.findall(r"recover\(\)", body))
 
 
-def gather(repo):
-    return {
+def slice_sites(repo, scratch):
+    """append / sort.Sort sites of exec/ with the freshness class of their operand (tools/slicefacts, go/ast)"""
+    here = os.path.dirname(os.path.abspath(__file__))
+    exe = os.path.join(scratch, "slicefacts")
+    env = dict(os.environ, GOFLAGS="-mod=mod", GOPROXY="off", GOSUMDB="off", GOTOOLCHAIN="local")
+    if not os.path.exists(exe):
+        subprocess.run(["go", "build", "-o", exe, "."], cwd=os.path.join(here, "slicefacts"), env=env, check=True,
+                       stdout=subprocess.PIPE, stderr=subprocess.STDOUT)
+    out = subprocess.run([exe, os.path.join(repo, "exec")], stdout=subprocess.PIPE, stderr=subprocess.STDOUT, text=True, check=True).stdout
+    sites = []
+    for line in out.splitlines():
+        f = line.split()
+        if len(f) == 4:
+            sites.append((f[0] + " " + f[1], f[2], f[3] == "fresh"))
+    return sites
+
+
+def cli_facts(repo):
+    """stdout write sites of the CLI worker and its flags"""
+    src = strip_comments(read(os.path.join(repo, "xsel", "xsel.go")))
+    body = func_body(src, "executeXpath") or ""
+    prints = len(re.findall(r"fmt\.Print(?:f|ln)?\(", body)) + len(re.findall(r"os\.Stdout", body))
+    other = 0
+    for fn in ("writeResult", "writeXmlResult", "runXpathOnFile", "runXpathOnStdin", "walker"):
+        b = func_body(src, fn) or ""
+        other += len(re.findall(r"fmt\.Print(?:f|ln)?\(", b)) + len(re.findall(r"os\.Stdout", b))
+    flags = re.findall(r'flag\.(?:Int|Bool|String)\("(\w+)"', src) + re.findall(r'flag\.Var\(\w+, "(\w+)"', src)
+    return {"worker_stdout_writes": prints, "other_stdout_writes": other, "flags": sorted(flags)}
+
+
+def gather(repo, scratch=None):
+    extra = {}
+    if scratch is not None:
+        extra["slice_sites"] = slice_sites(repo, scratch)
+    extra["cli"] = cli_facts(repo)
+    return dict(extra, **{
         "g_text": grammar_from_text(repo),
         "g_slots": grammar_from_slots(repo),
         "handlers": handler_table(repo),
@@ -186,7 +220,7 @@ def gather(repo):
         "implicit_child": implicit_child(repo),
         "store_self_calls": store_self_calls(repo),
         "recover_sites": recover_sites(repo),
-    }
+    })
 
 
 def coq_grammar(g):
@@ -206,6 +240,11 @@ def write_facts(facts, path, extra=""):
         f.write("Definition implicit_child : list string :=\n %s.\n" % clist([cstr(a) for a in facts["implicit_child"]]))
         f.write("Definition store_self_calls : nat := %d.\n" % facts["store_self_calls"])
         f.write("Definition recover_sites : nat := %d.\n" % facts["recover_sites"])
+        f.write("Definition slice_sites : list (string * string * bool) :=\n %s.\n" % clist(
+            ["(%s, %s, %s)" % (cstr(a), cstr(b), "true" if c else "false") for a, b, c in facts.get("slice_sites", [])]))
+        f.write("Definition cli_worker_stdout_writes : nat := %d.\nDefinition cli_other_stdout_writes : nat := %d.\n" % (
+            facts["cli"]["worker_stdout_writes"], facts["cli"]["other_stdout_writes"]))
+        f.write("Definition cli_flags : list string :=\n %s.\n" % clist([cstr(x) for x in facts["cli"]["flags"]]))
         f.write(extra)
 
 
@@ -225,8 +264,13 @@ CHECKS = {
             ("core_library_registered", "check_builtins builtins xpath_core_library")],
     "C10": [("store_is_a_loop", "Nat.eqb store_self_calls 0")],
     "C12": [("node_functions_registered", "check_builtins builtins [\"name\"; \"local-name\"; \"namespace-uri\"; \"count\"; \"lang\"]")],
+    "C13": [("every_append_and_sort_site_is_fresh", "check_slice_discipline slice_sites")],
+    "C14": [("every_append_and_sort_site_is_fresh", "check_slice_discipline slice_sites"),
+            ("one_stdout_write_per_file", "Nat.eqb cli_worker_stdout_writes 1 && Nat.eqb cli_other_stdout_writes 0")],
     "C15": [("binary_handlers_have_two_children", "check_two_children g_slots handlers"),
             ("exec_recovers", "Nat.eqb recover_sites 1")],
+    "C20": [("one_stdout_write_per_file", "Nat.eqb cli_worker_stdout_writes 1 && Nat.eqb cli_other_stdout_writes 0"),
+            ("flags_are_the_documented_ones", "strs_eqb cli_flags [\"a\"; \"c\"; \"e\"; \"m\"; \"n\"; \"r\"; \"s\"; \"t\"; \"u\"; \"v\"; \"x\"]")],
 }
 
 
@@ -235,7 +279,7 @@ def check(prop, repo, scratch, coqdir):
     if not checks:
         return {"obligations": 0, "discharged": 0, "summary": "no regenerated facts for this property", "broken": ""}
     try:
-        facts = gather(repo)
+        facts = gather(repo, scratch)
     except Exception as e:
         return {"obligations": len(checks), "discharged": 0, "summary": "translator failed", "broken": "tools/facts.py could not read the source: %r" % (e,)}
     fdir = os.path.join(scratch, "facts")
@@ -248,7 +292,7 @@ def check(prop, repo, scratch, coqdir):
     for name, expr in checks:
         src = os.path.join(fdir, "FactsCheck_%s_%s.v" % (prop, name))
         with open(src, "w") as f:
-            f.write("From Coq Require Import String List.\nImport ListNotations.\nFrom XV Require Import Syn.Expected.\nFrom XF Require Import Facts.\nLocal Open Scope string_scope.\n")
+            f.write("From Coq Require Import String List.\nImport ListNotations.\nFrom Coq Require Import Bool.\nFrom XV Require Import Syn.Expected.\nFrom XF Require Import Facts.\nLocal Open Scope string_scope.\nLocal Open Scope bool_scope.\n")
             f.write("Lemma %s : %s = true.\nProof. vm_compute. reflexivity. Qed.\n" % (name, expr))
         q = subprocess.run("timeout 600 coqc -R %s XV -Q . XF %s" % (coqdir, os.path.basename(src)), shell=True, cwd=fdir,
                            stdout=subprocess.PIPE, stderr=subprocess.STDOUT, text=True)
